@@ -160,6 +160,7 @@ type Cfg struct {
 	LiveRT   bool   `json:"liveRT"`   // the storage's RefreshTokenRequest is a live view of the stored grant
 	NoKeyUse bool   `json:"noKeyUse"` // the storage's public keys carry no "use"
 	Dyn      bool   `json:"dyn"`      // issuer derived from the request host (op.IssuerFromHost): several tenants on one provider
+	FastPoll bool   `json:"fastPoll"` // device authorization configured with a poll interval of one second (instead of five)
 	MidRot   bool   `json:"midRot"`   // the operator rotates signing keys across algorithms (verifiers configured for all of them); rotations may land mid-request
 	Alg      string `json:"alg"`
 	SessSt   string `json:"sessionState"`
@@ -168,10 +169,11 @@ type Cfg struct {
 
 // Policy is the token-exchange policy of the store (spec: cfg.policy).
 type Policy struct {
-	Deny    bool   `json:"deny"`
-	DefType string `json:"defType"`
-	Imp     string `json:"imp"`
-	Drop    string `json:"drop"`
+	Deny         bool   `json:"deny"`
+	DenyAtCreate bool   `json:"denyAtCreate"` // which of the storage's two hooks raises the veto (the spec does not care)
+	DefType      string `json:"defType"`
+	Imp          string `json:"imp"`
+	Drop         string `json:"drop"`
 }
 
 var tokenTypeURN = map[string]string{
@@ -232,10 +234,13 @@ func BuildProvider(store *modelstore.Store, cfg Cfg, extra ...op.Option) (http.H
 			Lifetime: 5 * time.Minute, PollInterval: 5 * time.Second, UserFormPath: "/device", UserCode: op.UserCodeBase20,
 		},
 	}
+	if cfg.FastPoll {
+		conf.DeviceAuthorization.PollInterval = time.Second
+	}
 	store.SessionState = cfg.SessSt
 	store.NotFoundAsOIDC = cfg.OIDCErrs
 	store.LiveRefresh, store.KeyUseAbsent = cfg.LiveRT, cfg.NoKeyUse
-	store.Policy = modelstore.TEPolicy{Deny: cfg.Policy.Deny, Impersonate: cfg.Policy.Imp, DropScope: cfg.Policy.Drop}
+	store.Policy = modelstore.TEPolicy{Deny: cfg.Policy.Deny, DenyAtCreate: cfg.Policy.DenyAtCreate, Impersonate: cfg.Policy.Imp, DropScope: cfg.Policy.Drop}
 	if cfg.Policy.DefType != "" {
 		store.Policy.DefaultType = oidc.TokenType(tokenTypeURN[cfg.Policy.DefType])
 	}
